@@ -47,6 +47,30 @@ const NESTS: &[(&str, &str)] = &[
     ("labeled", "dead_outer: for (let dead_i = 0; dead_i < 2; dead_i++) { for (let dead_j = 0; dead_j < 2; dead_j++) { let dead_k = 1; if (dead_j === 1) { FAULT } } }"),
 ];
 
+/// bodies that run at the bare top level of the script (no enclosing block or function): nothing
+/// but the interpreter itself unwinds their scopes when the run dies. They declare nothing at
+/// the top level except under `keep_*` names, which no observer probes.
+const BARE: &[(&str, &str)] = &[
+    ("generator-spread", "[...(function*(){ let dead_a = 1; yield 1; { let dead_b = 2; FAULT } })()];"),
+    ("generator-from", "Array.from((function*(){ let dead_a = 1; yield 1; FAULT })());"),
+    ("generator-next2", "globalThis.keep_it = (function*(){ let dead_a = 1; yield 1; { let dead_b = 2; FAULT } })(); keep_it.next(); keep_it.next();"),
+    ("generator-next3-loop", "globalThis.keep_it4 = (function*(){ for (let dead_i = 0; dead_i < 5; dead_i++) { let dead_b = dead_i; yield dead_b; if (dead_i === 1) { FAULT } } })(); keep_it4.next(); keep_it4.next(); keep_it4.next();"),
+    ("generator-forof", "for (const dead_x of (function*(){ let dead_a = 1; yield 1; FAULT })()) { }"),
+    ("generator-return-finally", "globalThis.keep_it2 = (function*(){ let dead_a = 1; try { yield 1; yield 2; } finally { let dead_b = 2; FAULT } })(); keep_it2.next(); keep_it2.return(5);"),
+    ("generator-throw-method", "globalThis.keep_it3 = (function*(){ let dead_a = 1; try { yield 1; } catch (dead_e) { let dead_b = 2; FAULT } })(); keep_it3.next(); keep_it3.throw(new Error('in'));"),
+    ("yield-star", "[...(function*(){ let dead_a = 1; yield* (function*(){ let dead_b = 2; yield 1; FAULT })(); })()];"),
+    ("call", "(function(dead_p){ let dead_l = dead_p; FAULT })(1);"),
+    ("native-callback", "[1, 2].forEach(function(dead_x){ let dead_y = dead_x; if (dead_x === 2) { FAULT } });"),
+    ("getter", "({ get dead_g(){ let dead_t = 1; FAULT } }).dead_g;"),
+    ("tostring", "'' + ({ toString(){ let dead_t = 1; FAULT } });"),
+    ("ctor", "new (class { constructor(){ let dead_t = 1; { let dead_u = 2; FAULT } } })();"),
+    ("async", "(async function(){ let dead_a = 1; { let dead_b = 2; FAULT } })();"),
+    ("try-finally", "try { let dead_t = 1; FAULT } finally { let dead_u = 2; }"),
+    ("loop", "for (let dead_i = 0; dead_i < 3; dead_i++) { let dead_b = dead_i; if (dead_i === 1) { FAULT } }"),
+    ("switch", "switch (2) { case 2: { let dead_s = 's'; FAULT } }"),
+    ("labeled-block", "dead_lbl: { let dead_k = 1; FAULT }"),
+];
+
 const FAULTS: &[(&str, &str)] = &[
     ("throw", "throw new Error('dead');"),
     ("typeerror", "null.dead_property;"),
@@ -73,6 +97,12 @@ fn dead_programs() -> Vec<Dead> {
         // module body variant (one fault kind)
         let b = body.replace("FAULT", FAULTS[0].1);
         v.push(Dead { id: format!("err.{}.throw.module", n), src: format!("export const dead_exported = 1;\n{{ {} }}", b), module_path: Some("/dead/main.ts".into()) });
+    }
+    for (n, body) in BARE {
+        for (fname, fault) in FAULTS {
+            v.push(Dead { id: format!("err.bare-{}.{}", n, fname), src: format!("'use strict';\n{}", body.replace("FAULT", fault)), module_path: None });
+        }
+        v.push(Dead { id: format!("err.bare-{}.throw.module", n), src: format!("export const dead_exported = 1;\n{}", body.replace("FAULT", FAULTS[0].1)), module_path: Some("/dead/bare.ts".into()) });
     }
     v
 }
